@@ -192,6 +192,15 @@ static void submit(op_t *op) {
 	atomic_fetch_add(&pending, 1);
 	fill_payload(op);
 	logev(EV_CALL, op->id, -1, op->kind);
+	if ((op->b & 2) && (op->kind == K_BASYNC || op->kind == K_BSYNC || op->kind == K_BAAW)) {
+		// the barrier comes from the block object (DISPATCH_BLOCK_BARRIER), the submission API is the plain one
+		dispatch_block_t blk = dispatch_block_create(DISPATCH_BLOCK_BARRIER, ^{ item_run(op, -1); });
+		if (op->kind == K_BASYNC) dispatch_async(q, blk); else if (op->kind == K_BSYNC) dispatch_sync(q, blk); else dispatch_async_and_wait(q, blk);
+		Block_release(blk);
+		logev(EV_RET, op->id, -1, 0);
+		if (op->kind != K_BASYNC) check_result(op);
+		return;
+	}
 	switch (op->kind) {
 	case K_ASYNC: if (blockform) dispatch_async(q, ^{ item_run(op, -1); }); else dispatch_async_f(q, op, item_f); break;
 	case K_BASYNC: if (blockform) dispatch_barrier_async(q, ^{ item_run(op, -1); }); else dispatch_barrier_async_f(q, op, item_f); break;
